@@ -49,6 +49,7 @@ def generate(rng, tier, idx):
         tau = -tau
     if fam == 'Gumbel' and rng.random() < 0.08:
         tau = 0.0                       # theta == 1: the closed lower edge of the Gumbel domain
+    edge_clayton = fam == 'Clayton' and rng.random() < 0.06
     how = 'fit' if rng.random() < 0.3 else 'param'
     big = 40000 if tier == 'thorough' else 4000
     ops = []
@@ -69,11 +70,27 @@ def generate(rng, tier, idx):
             t2 = -t2
         ops.append({'op': 'reparam', 'tau': t2, 'how': rng.choice(['assign', 'compute'])})
         ops.append({'op': 'sample', 'n': rng.choice([10, 500, 2000])})
+    if fam != 'Frank' and rng.random() < 0.15:
+        # history: a refit on data the family refuses (negative dependence); the caller keeps
+        # the object.  Whatever the object does afterwards, a sample it returns must obey the
+        # model's own (tau, theta) - or the object refuses to sample
+        ops.append({'op': 'refit_refused', 'data': {'kind': 'pobs', 'n': 200,
+                                                    'tau': -rng.choice([0.3, 0.6]),
+                                                    'seed': rng.randrange(2**31)}})
+        ops.append({'op': 'sample', 'n': 2000, 'may_refuse': True})
     run = {'family': fam, 'tau': tau, 'how': how, 'seed': zoo.rand_seedspec(rng),
            'g0': rng.randrange(2**31), 'ops': ops}
     if how == 'fit':
         run['fit_data'] = {'kind': 'pobs', 'n': rng.randint(150, 400), 'tau': tau,
                            'seed': rng.randrange(2**31)}
+    if edge_clayton:
+        # tau == 0 is outside Clayton's domain (theta in (0, inf)): the object may refuse to
+        # sample, but a sample it does return has to be a sample of the model it claims to be
+        run.update({'how': 'param_numpy', 'tau': 0.0})
+        run.pop('fit_data', None)
+        for o in run['ops']:
+            if o['op'] == 'sample':
+                o['may_refuse'] = True
     return run
 
 
@@ -126,13 +143,16 @@ def _build(run, ctx):
         if model.tau is None or not (abs(model.tau) <= 0.8) or abs(model.tau) < 0.01:
             ctx.probes['fitted_tau_outside_quantifier'] += 1
             return None, fam
+    elif run['how'] == 'param_numpy':
+        model.tau = np.float64(run['tau'])
+        model.theta = np.float64(model.compute_theta())
     else:
         model.tau = run['tau']
         model.theta = refs.theta_of_tau(fam, run['tau'])
     return model, fam
 
 
-def _check_call(ctx, run, model, fam, n, subject):
+def _check_call(ctx, run, model, fam, n, subject, may_refuse=False):
     theta, tau = float(model.theta), float(model.tau)
     cond = {'family': fam, 'n': n, 'tau_sign': 'neg' if tau < 0 else 'pos',
             'how': run['how'], 'seeded': run['seed'] is not None}
@@ -140,6 +160,9 @@ def _check_call(ctx, run, model, fam, n, subject):
         out = outcome(model.sample, n)
     ctx.stats['sample_calls'] += 1
     ctx.stats['draw_calls_recorded'] += len(rec.calls)
+    if out[0] != 'ok' and may_refuse:
+        ctx.probes['sample_refused_outside_domain:' + outcome_class(out)] += 1
+        return 'refused'
     if out[0] != 'ok':
         ctx.violate('a_returns_n_by_2_array', subject,
                     'sample(%d) raised %s: %s' % (n, outcome_class(out), str(out[1])[:120]),
@@ -248,9 +271,16 @@ def execute(run):
             tb = '%+.1f' % (round(float(model.tau) * 5) / 5.0)
             ctx.probes['reparameterised_in_place'] += 1
             ctx.event('reparam', op['tau'], float(model.theta))
+        elif op['op'] == 'refit_refused':
+            X = zoo.gen_data(op['data'])
+            o = outcome(model.fit, X)
+            ctx.probes['refit_on_refused_data:' + outcome_class(o)] += 1
+            ctx.event('refit_refused', outcome_class(o))
+            if model.theta is None or model.tau is None:
+                break
         elif op['op'] == 'sample':
             n = op['n']
-            proto = _check_call(ctx, run, model, fam, n, subject)
+            proto = _check_call(ctx, run, model, fam, n, subject, op.get('may_refuse', False))
             ctx.nontrivial = True
             ncls = '1' if n == 1 else ('small' if n < 2000 else 'band')
             if n == 1:
